@@ -130,6 +130,11 @@ def gen_static():
                 L.append('    { let e: [%s; 0] = []; let r1: %s = e.iter().%s(); let r2: %s = e.into_iter().%s(); vassert_eq("%s of 0 refs", r1, %s); vassert_eq("%s of 0 values", r2, %s); }' % (ty, ty, method, ty, method, method, zero, method, zero))
             else:
                 L.append('    { let r1: %s = %s.iter().%s(); let r2: %s = %s.into_iter().%s(); vassert_eq("%s of %d refs", r1, %s); vassert_eq("%s of %d values", r2, %s); }' % (ty, arr, method, ty, arr, method, method, k, want, method, k, want))
+        # the same fold through an adaptor that gives no lower size hint (an "empty iterator" shortcut keyed on size_hint
+        # would answer the neutral element here)
+        arr2 = '[%s]' % ', '.join(names[:2])
+        want2 = '((%s %s a) %s b)' % (zero, op, op)
+        L.append('    { let r3: %s = %s.iter().filter(|_| true).%s(); let r4: %s = %s.into_iter().filter(|_| true).%s(); vassert_eq("%s of 2 refs, filtered", r3, %s); vassert_eq("%s of 2 values, filtered", r4, %s); }' % (ty, arr2, method, ty, arr2, method, method, want2, method, want2))
         add(name, ', '.join('%s: %s' % (x, ty) for x in names[:n]), L)
     for v in VEC:
         folds('c17_sum_%s' % v.lower(), '%s<R>' % v, '%s::<R>::zero()' % v, '+', 'sum')
